@@ -227,7 +227,11 @@ def worker(case: Dict[str, Any]) -> CaseResult:
         cfg = write_case(root, sdl, queries, cfg_full, extra_files=case.get("extra_files"))
         with warnings.catch_warnings():
             warnings.simplefilter("ignore")
-            gen = run_cli(root, case.get("strategy", "client"), cfg)
+            # every 6th C04 case invokes the command the way the README shows it first: without a strategy argument
+            bare = "C04" in props and case["idx"] % 6 == 0 and "strategy" not in case
+            gen = run_cli(root, None if bare else case.get("strategy", "client"), cfg)
+            if bare:
+                feats.append("cli.no_strategy_argument")
         replay_case = dict(case)
         replay_case["_sdl"] = sdl
         replay_case["_queries"] = queries
@@ -238,6 +242,10 @@ def worker(case: Dict[str, Any]) -> CaseResult:
                 return CaseResult("held", stats=stats, sets={"features": feats})
             if "C04" in props:
                 kind = "typed-refusal-on-valid-input" if gen.exc_is_codegen else "internal-error"
+                if bare and gen.exception is None and gen.exit_code == 2:
+                    violations.append(Violation("C04", "default-strategy-invocation", "`ariadne-codegen` without a strategy argument exits %d: %s" % (gen.exit_code, gen.stdout[-300:]),
+                                                feats, replay_case, mech="c04:default-strategy-invocation"))
+                    return CaseResult("violated", [v.to_json() for v in violations], stats, {"features": feats})
                 pass
                 violations.append(Violation("C04", "generation-" + kind, "valid input, generation failed with %s: %s\n%s" % (
                     gen.exc_type or ("exit code %d" % gen.exit_code), str(gen.exception)[:300], gen.traceback[-1200:] if not gen.exc_is_codegen else (gen.stdout[-300:])),
